@@ -26,10 +26,25 @@ func IndexTable(db objects.Store, tblSum []byte, tbl *objects.Table, logger logr
 	)
 	logger = logger.WithName("IndexTable")
 	logger.Info("indexing table", "sum", tblSum)
+	// the table and its blocks may come from a remote: check that they fit together before
+	// rows are indexed by key column and profiled by column
+	for _, k := range tbl.PK {
+		if int(k) >= len(tbl.Columns) {
+			return fmt.Errorf("primary key column %d out of range (%d columns)", k, len(tbl.Columns))
+		}
+	}
 	for i, sum := range tbl.Blocks {
 		blk, bb, err = objects.GetBlock(db, bb, sum)
 		if err != nil {
 			return fmt.Errorf("GetBlock: %v", err)
+		}
+		if len(blk) == 0 {
+			return fmt.Errorf("block %x at offset %d is empty", sum, i)
+		}
+		for j, row := range blk {
+			if len(row) != len(tbl.Columns) {
+				return fmt.Errorf("block %x at offset %d: row %d has %d cells, table has %d columns", sum, i, j, len(row), len(tbl.Columns))
+			}
 		}
 		if len(tbl.PK) > 0 {
 			tblIdx[i] = slice.IndicesToValues(blk[0], tbl.PK)
